@@ -18,7 +18,7 @@ func init() {
 		Explanation: "Decides three structural clauses of 'dates written by pdfcpu are valid and read back to the same instant': " +
 			"(R1) types.DateString builds the string from a constant format whose numeric verbs are zero padded with the widths ISO 32000 7.9.4 fixes — year 4, month, day, hour, minute, second 2, offset hours and minutes 2 (or uses time.Format with the layout 20060102150405): a narrower year shifts every following field for years below 1000. " +
 			"(R2) in types.parseTimezone the sign of the offset reaches both results: if the hours returned on some path are negated (× −1) then the minutes returned on that path are negated as well — FixedZone is fed hours·3600 + minutes·60, so −03'30' must not become −3 h + 30 min. " +
-			"(R3) the strict field parsers compare their field with exactly the bounds of the date grammar: month 1..12, day 1..31, hour ≤ 23, minute ≤ 59, second ≤ 59, offset minutes ≤ 59 (comparisons normalised to cuts as in C13). " +
+			"(R3) the strict field parsers compare their field with exactly the bounds of the date grammar: month 1..12, day 1..31, hour ≤ 23, minute ≤ 59, second ≤ 59, offset minutes ≤ 59 (comparisons normalised to cuts as in C13); the offset hours are not cut anywhere inside (−24, 23) in parseTimezone / parseTimezoneHours. " +
 			"(R4) DateString decides the sign on the zone offset divided by at most 60 (whole minutes), not on its hour part, which is 0 for −00:30; (R5) date.go either has no leap-year arithmetic of its own (month lengths come from time.Date) or its rule has all three clauses %4, %100, %400. NOT decided: calendar arithmetic (days per month is delegated to time.Date), that every instant in range round-trips (value-level), relaxed-mode repairs, out-of-spec date forms.",
 		Rules:       []string{"C14.R1 TABLE: zero-padded field widths of the date writer", "C14.R2 siblings: the offset's sign is applied to hours and minutes alike", "C14.R3 TABLE: field bounds of the strict date parser", "C14.R4 shape: the written sign is decided on the whole offset", "C14.R5 TABLE: no partial hand-written leap-year rule"},
 		Assumptions: []string{"package time is correct"},
@@ -100,7 +100,7 @@ func runC14(c *Ctx) {
 	p, r := c.P, c.R
 	r.MinInst["C14.R1"] = 1
 	r.MinInst["C14.R2"] = 1
-	r.MinInst["C14.R3"] = 6
+	r.MinInst["C14.R3"] = 8
 	r.MinInst["C14.R4"] = 1
 	r.MinInst["C14.R5"] = 1
 	checkC14Extras(c)
@@ -151,7 +151,25 @@ func runC14(c *Ctx) {
 				for _, a := range call.Call.Args {
 					if f, ok := constString(a); ok && strings.Contains(f, "20060102150405") {
 						decided = true
-						r.OK("C14.R1", FuncID(fn), "date format", p.Pos(call.Pos()), "time layout 20060102150405 (fixed widths)", true)
+						// the zone: Go's layouts with offset minutes are -0700, -07:00 (and the Z variants); "-07" followed by
+						// anything else prints the hours only (a quoted '00' is a literal)
+						zone := f[strings.Index(f, "20060102150405")+len("20060102150405"):]
+						hasMinutes := false
+						for _, z := range []string{"-0700", "-07:00", "Z0700", "Z07:00"} {
+							if strings.Contains(zone, z) {
+								hasMinutes = true
+							}
+						}
+						switch {
+						case !strings.HasPrefix(f, "D:"):
+							r.Bad("C14.R1", FuncID(fn), "date format", p.Pos(call.Pos()), "layout "+fmt.Sprintf("%q", f)+": the D: prefix is missing")
+						case strings.Contains(zone, "07") && !hasMinutes:
+							r.Bad("C14.R1", FuncID(fn), "date format", p.Pos(call.Pos()), "layout "+fmt.Sprintf("%q", f)+" prints the hours of the UTC offset only (the text after -07 is literal): an offset of +05:30 is written as +05'00' and reads back as another instant's offset")
+						case !hasMinutes && zone != "":
+							r.Bad("C14.R1", FuncID(fn), "date format", p.Pos(call.Pos()), "layout "+fmt.Sprintf("%q", f)+" has no UTC offset with minutes after the seconds")
+						default:
+							r.OK("C14.R1", FuncID(fn), "date format", p.Pos(call.Pos()), "time layout 20060102150405 (fixed widths) with an offset layout that carries minutes", true)
+						}
 					}
 				}
 			}
@@ -199,6 +217,15 @@ func runC14(c *Ctx) {
 		"pkg/pdfcpu/types.parseSecond":          {59},
 		"pkg/pdfcpu/types.parseTimezoneMinutes": {59},
 	}
+	// fields the property lets run over their whole two-digit range (offset hours up to 23): any cut of a parsed
+	// number strictly inside (-24, 23) rejects a date the writer can produce
+	widest := map[string]int64{
+		"pkg/pdfcpu/types.parseTimezone":      23,
+		"pkg/pdfcpu/types.parseTimezoneHours": 23,
+	}
+	for f := range widest {
+		bounds[f] = nil
+	}
 	var fids []string
 	for f := range bounds {
 		fids = append(fids, f)
@@ -245,6 +272,21 @@ func runC14(c *Ctx) {
 				got[k-1] = true
 			}
 		})
+		if lim, ok := widest[fid]; ok {
+			var inside []string
+			for g := range got {
+				if g < lim && g >= -lim-1 {
+					inside = append(inside, fmt.Sprint(g))
+				}
+			}
+			sort.Strings(inside)
+			if len(inside) == 0 {
+				r.OK("C14.R3", fid, "field bounds", p.Pos(fn.Pos()), fmt.Sprintf("no parsed number is cut inside (-%d, %d): offsets of up to 23 hours pass", lim+1, lim), true)
+			} else {
+				r.Bad("C14.R3", fid, "field bounds", p.Pos(fn.Pos()), "a parsed number is cut after {"+strings.Join(inside, ", ")+fmt.Sprintf("}: the property covers offsets of up to %d:59, a date with a larger offset hour than the cut is written by DateString and then rejected or read with another offset", lim))
+			}
+			continue
+		}
 		var want, have []string
 		okAll := true
 		for _, w := range bounds[fid] {
